@@ -237,6 +237,19 @@ func (p *Prog) extraObligations(o checkOpts) (obs []*Obligation, notes []string,
 				args[kv[:k]] = strings.NewReplacer(`\s`, " ", `\t`, "\t").Replace(kv[k+1:])
 			}
 		}
+		if o.tier == "thorough" {
+			// "key_thorough=value" replaces "key=value" in the thorough tier (larger bounds)
+			for k, v := range args {
+				if strings.HasSuffix(k, "_thorough") {
+					args[strings.TrimSuffix(k, "_thorough")] = v
+				}
+			}
+		}
+		for k := range args {
+			if strings.HasSuffix(k, "_thorough") {
+				delete(args, k)
+			}
+		}
 		if ln := args["lang"]; ln != "" {
 			// the job works on the members of a spec language: all strings over the alphabet up to
 			// maxlen that the language's automaton accepts, enumerated here
@@ -401,7 +414,11 @@ func (p *Prog) validateCodeRegexes(o checkOpts) (obs []*Obligation, notes []stri
 			le := &langEnv{p: p, leaves: map[string]*leafRegex{pat: l}, cache: map[string]*DFA{}, stack: map[string]bool{}}
 			le.al = buildAlphabet([]*leafRegex{l}, nil, false)
 			d := leafDFA(l, le.al)
-			n, mm := validateLeaf(pat, le, d, 4, 200000)
+			vl, vlim := 4, 200000
+			if o.tier == "thorough" {
+				vl, vlim = 5, 2000000
+			}
+			n, mm := validateLeaf(pat, le, d, vl, vlim)
 			name := "bounded.regex-dfa." + sanitizeIdent(truncate(pat, 40)) + fmt.Sprintf("_%d", len(pat))
 			desc := fmt.Sprintf("ASSUMPTION VALIDATION (bounded): DFA of %q agrees with regexp.MatchString on %d strings (length <= 4 over %d class representatives)", pat, n, len(le.al.reps))
 			obs = append(obs, preSolved(name, "bounded", "", desc, mm == "", mm, lm.Serves))
